@@ -443,6 +443,8 @@ pub proof fn lemma_unknown_bytes(l: Seq<u8>)
 }
 
 /// a cut inside `PROXY UNKNOWN`
+#[verifier::rlimit(60)]
+#[verifier::spinoff_prover]
 pub proof fn lemma_unknown_prefix_head(w: Seq<u8>, k: int)
     requires 0 <= k <= 13, w =~= unknown_head().subrange(0, k)
     ensures v1v_incomplete(line_verdict(w))
@@ -499,6 +501,7 @@ pub proof fn lemma_unknown_prefix_tail(w: Seq<u8>)
 
 // [props: C05]
 /// every proper prefix of a well-formed UNKNOWN line has an incomplete verdict and is not terminated
+#[verifier::rlimit(60)]
 pub proof fn lemma_c05_v1_unknown(l: Seq<u8>, k: int)
     requires unknown_line(l), l.len() <= 107, 0 <= k < l.len()
     ensures v1v_incomplete(line_verdict(l.subrange(0, k))), !v1_terminated(l.subrange(0, k))
